@@ -25,6 +25,7 @@ type hsock struct {
 	writes [][]byte
 	closed bool
 	in     []byte // what the client sends; EOF afterwards
+	gate   chan struct{} // native replays only: writes wait until it is closed (a stalled client)
 }
 
 func (s *hsock) Read(b []byte) (int, error) {
@@ -36,6 +37,9 @@ func (s *hsock) Read(b []byte) (int, error) {
 	return n, nil
 }
 func (s *hsock) Write(b []byte) (int, error) {
+	if s.gate != nil {
+		<-s.gate
+	}
 	s.writes = append(s.writes, append([]byte(nil), b...))
 	return len(b), nil
 }
